@@ -131,7 +131,7 @@ typedef struct {
 /* macro calls */
 #define call_program(prog, offset) eval_instruction ((prog)->program + (offset))
 
-#define push_svalue(x) do{++sp;assign_svalue_no_free(sp, (x));}while(0)
+#define push_svalue(x) do{STACK_CHECK(1);++sp;assign_svalue_no_free(sp, (x));}while(0)
 
 #define put_number(x) do {\
         sp->type = T_NUMBER;\
